@@ -265,7 +265,12 @@ def immutable_expr(e):
 def is_iterator_expr(e):
     if isinstance(e, ast.GeneratorExp):
         return True
-    return isinstance(e, ast.Call) and isinstance(e.func, ast.Name) and e.func.id in ("zip", "map", "filter", "iter", "enumerate", "reversed", "open")
+    if not isinstance(e, ast.Call):
+        return False
+    if isinstance(e.func, ast.Attribute) and isinstance(e.func.value, ast.Name) and e.func.value.id == "itertools":
+        return True     # itertools.count() / cycle() / chain() ...: a running position that next()/for advances
+    return isinstance(e.func, ast.Name) and e.func.id in ("zip", "map", "filter", "iter", "enumerate", "reversed", "open", "count", "cycle",
+                                                          "chain", "islice", "repeat", "accumulate", "tee")
 
 
 def value_kind(e):
@@ -1202,6 +1207,9 @@ PROC_TARGETS = {"os.environ": "environ", "sys.path": "sys.path", "sys.stdout": "
                 "warnings.filters": "warnings"}
 
 
+MODULE_ROOTS = set()    # names bound to imported modules in the module being scanned (set by collect_process_state)
+
+
 def proc_kind_of(node):
     """(kind, text) if the node mutates process-global state, else None"""
     if isinstance(node, ast.Call):
@@ -1224,6 +1232,9 @@ def proc_kind_of(node):
         d = dotted_name(base) if isinstance(base, (ast.Attribute, ast.Name)) else None
         if d in PROC_TARGETS:
             return PROC_TARGETS[d], ast.unparse(t)[:40] + " = ..."
+        # an attribute of ANOTHER module (neuroml.build_time_validation.ENABLED = ..): a process-wide switch
+        if d and "." in d and d.split(".")[0] in MODULE_ROOTS and isinstance(base, ast.Attribute):
+            return "module-attribute", ast.unparse(t)[:60] + " = ..."
     return None
 
 
@@ -1231,7 +1242,12 @@ def collect_process_state():
     rows = []
     for m in W.mods.values():
         parents = {}
+        MODULE_ROOTS.clear()
+        MODULE_ROOTS.update(m.mod_aliases)
         for p in ast.walk(m.tree):
+            if isinstance(p, ast.Import):
+                for al in p.names:
+                    MODULE_ROOTS.add(al.asname or al.name.split(".")[0])
             for c in ast.iter_child_nodes(p):
                 parents[c] = p
         for n in ast.walk(m.tree):
